@@ -238,6 +238,7 @@ type c18Entry struct {
 	n          int64 // counter: value; gauge: net value; histogram/timer: observations   (atomic)
 	sum        int64 // histogram/timer: exact integer sum of observations                (atomic)
 	sumUnknown int32 // timer driven through Time(): wall-clock sum, not compared         (atomic)
+	nonFinite  int32 // bit 1: a NaN was observed, 2: +Inf, 4: -Inf (the exact sum is then NaN / +Inf / -Inf) (atomic, or-ed)
 	calls      int64 // collector lookups issued for this identity                         (atomic)
 	ptrs       []interface{}
 	orders     map[string]bool
@@ -341,10 +342,23 @@ func (w *c18World) op(r *rand.Rand, e *c18Entry, loc *c18Local, probe bool) {
 		h := w.col.Histogram(e.id.Name, tags)
 		p = h
 		if !probe {
-			v := c18Obs(r)
-			h.Observe(float64(v))
-			atomic.AddInt64(&e.n, 1)
-			atomic.AddInt64(&e.sum, v)
+			if r.Intn(150) == 0 { // an observation is an observation, also when it is not a finite number
+				k := r.Intn(3)
+				h.Observe([]float64{math.NaN(), math.Inf(1), math.Inf(-1)}[k])
+				atomic.AddInt64(&e.n, 1)
+				for {
+					old := atomic.LoadInt32(&e.nonFinite)
+					if atomic.CompareAndSwapInt32(&e.nonFinite, old, old|1<<uint(k)) {
+						break
+					}
+				}
+				w.ctx.R.Path("non-finite-observations", 1)
+			} else {
+				v := c18Obs(r)
+				h.Observe(float64(v))
+				atomic.AddInt64(&e.n, 1)
+				atomic.AddInt64(&e.sum, v)
+			}
 		}
 	case "timer":
 		t := w.col.Timer(e.id.Name, tags)
@@ -464,7 +478,7 @@ func (w *c18World) checkHistogram(e *c18Entry, h *metrics.Histogram, path string
 		return
 	}
 	cnt, sum, mean := h.Count(), h.Sum(), h.Mean()
-	if cnt > 0 {
+	if cnt > 0 && !math.IsNaN(sum) && !math.IsInf(sum, 0) {
 		want := sum / float64(cnt)
 		if !(math.Abs(mean-want) <= 1e-9*math.Max(1, math.Abs(want))) {
 			w.violate("histogram-total", path, e, fmt.Sprintf("%s: Mean() = %v but Sum()/Count() = %v/%d = %v", e.id.show(), mean, sum, cnt, want), nil)
@@ -570,13 +584,29 @@ func (w *c18World) check(stage string) {
 				w.violate(w.totalClause("histogram-total", float64(cnt), float64(exp)), path, e,
 					fmt.Sprintf("%s: Count() over the %d metric(s) of this identity = %d, observations made = %d (%s)", e.id.show(), len(e.ptrs), cnt, exp, stage), more)
 			}
-			if atomic.LoadInt32(&e.sumUnknown) == 0 && sum != float64(expSum) {
+			if nf := atomic.LoadInt32(&e.nonFinite); nf != 0 {
+				// the exact sum of observations that include NaN / Inf
+				want := math.NaN()
+				switch {
+				case nf&1 != 0 || nf&6 == 6:
+				case nf&2 != 0:
+					want = math.Inf(1)
+				default:
+					want = math.Inf(-1)
+				}
+				if atomic.LoadInt32(&e.sumUnknown) == 0 && len(e.ptrs) == 1 && !(sum == want || math.IsNaN(sum) && math.IsNaN(want)) {
+					w.violate("histogram-total", path, e,
+						fmt.Sprintf("%s: Sum() = %v, the exact sum of the %d observations (non-finite ones among them) is %v (%s)", e.id.show(), sum, exp, want, stage), more)
+				}
+			} else if atomic.LoadInt32(&e.sumUnknown) == 0 && sum != float64(expSum) {
 				w.violate(w.totalClause("histogram-total", sum, float64(expSum)), path, e,
 					fmt.Sprintf("%s: Sum() over the %d metric(s) of this identity = %v, exact sum of the %d integer observations = %d (%s)", e.id.show(), len(e.ptrs), sum, exp, expSum, stage), more)
 			}
 			if e.id.Kind == "histogram" { // timers are not part of GetAllMetrics
 				series(e, "histogram", e.id.Name+"_count", float64(exp), "observation count")
-				series(e, "histogram", e.id.Name+"_sum", float64(expSum), "observation sum")
+				if atomic.LoadInt32(&e.nonFinite) == 0 {
+					series(e, "histogram", e.id.Name+"_sum", float64(expSum), "observation sum")
+				}
 				// the percentiles as exported (also what the performance report shows) never decrease as the percentile grows
 				if !w.ambig && exp > 0 {
 					prev, prevName := math.Inf(-1), ""
@@ -614,6 +644,7 @@ func (w *c18World) reset() {
 		atomic.StoreInt64(&e.n, 0)
 		atomic.StoreInt64(&e.sum, 0)
 		atomic.StoreInt32(&e.sumUnknown, 0)
+		atomic.StoreInt32(&e.nonFinite, 0)
 		e.ptrs = nil
 	}
 	w.owner = map[interface{}]int{}
@@ -1078,8 +1109,79 @@ func c18SeqCollectorRound(ctx *Ctx, r *rand.Rand, rd int) {
 	w.finish()
 }
 
+// c18ManySeries: one collector holding tens of thousands of series of each kind (per-query, per-user or per-path tags in a
+// long-running process): identity and totals hold for the last series as for the first.
+func c18ManySeries(ctx *Ctx, r *rand.Rand) {
+	n := 66000 + r.Intn(3000)
+	cs := map[string]interface{}{"part": "many-series", "series_per_kind": n}
+	ctx.R.Begin(cs)
+	ctx.R.Guard("C18", "Collector/many-series", cs, func() {
+		col := metrics.NewCollector()
+		tag := func(i int) map[string]string {
+			return map[string]string{"id": fmt.Sprint(i), "zone": "z" + fmt.Sprint(i%7)}
+		}
+		tagRev := func(i int) map[string]string {
+			return map[string]string{"zone": "z" + fmt.Sprint(i%7), "id": fmt.Sprint(i)}
+		}
+		for i := 0; i < n; i++ {
+			col.Counter("many_c", tag(i)).Inc()
+			col.Histogram("many_h", tag(i)).Observe(float64(i % 50))
+			col.Gauge("many_g", tag(i)).Add(2)
+			col.Timer("many_t", tag(i)).Histogram().Observe(1)
+		}
+		ctx.R.Eval(int64(4 * n))
+		probes := []int{0, 1, n / 2, 65534, 65535, 65536, 65537, n - 2, n - 1}
+		for _, i := range probes {
+			vio := func(kind, detail string) {
+				ctx.R.Violate(vlib.Violation{Property: "C18", Clause: "identity-split", Path: "Collector." + kind + "/many-series",
+					Detail: fmt.Sprintf("series number %d of %d: %s", i, n, detail), Witness: cs})
+			}
+			c1, c2 := col.Counter("many_c", tag(i)), col.Counter("many_c", tagRev(i))
+			if c1 != c2 {
+				vio("Counter", "two lookups with equal name and tags returned different counters")
+			}
+			c1.Inc()
+			c2.Add(2)
+			if v := col.Counter("many_c", tag(i)).Value(); v != 4 {
+				ctx.R.Violate(vlib.Violation{Property: "C18", Clause: "counter-total-lost", Path: "Collector.Counter/many-series",
+					Detail: fmt.Sprintf("series number %d of %d: Value() = %d after 1 + 1 + 2 increments", i, n, v), Witness: cs})
+			}
+			h1, h2 := col.Histogram("many_h", tag(i)), col.Histogram("many_h", tagRev(i))
+			if h1 != h2 {
+				vio("Histogram", "two lookups with equal name and tags returned different histograms")
+			}
+			h1.Observe(3)
+			if c := col.Histogram("many_h", tag(i)).Count(); c != 2 {
+				ctx.R.Violate(vlib.Violation{Property: "C18", Clause: "histogram-total-lost", Path: "Collector.Histogram/many-series",
+					Detail: fmt.Sprintf("series number %d of %d: Count() = %d after 2 observations", i, n, c), Witness: cs})
+			}
+			if col.Gauge("many_g", tag(i)) != col.Gauge("many_g", tagRev(i)) {
+				vio("Gauge", "two lookups with equal name and tags returned different gauges")
+			}
+			if col.Timer("many_t", tag(i)) != col.Timer("many_t", tagRev(i)) {
+				vio("Timer", "two lookups with equal name and tags returned different timers")
+			}
+			ctx.R.Path("many-series-probes", 1)
+		}
+		total := 0.0
+		for _, m := range col.GetAllMetrics() {
+			if m.Name == "many_c" {
+				total += m.Value
+			}
+		}
+		if want := float64(n + 3*len(probes)); total != want {
+			ctx.R.Violate(vlib.Violation{Property: "C18", Clause: "series-total-lost", Path: "Collector.GetAllMetrics/many-series",
+				Detail: fmt.Sprintf("the exported counters of %d series sum to %v, increments applied: %v", n, total, want), Witness: cs})
+		}
+		ctx.R.Nontriv("many-series", n)
+	})
+}
+
 func engineC18Seq(ctx *Ctx) {
 	r := vlib.NewRand(ctx.Seed, ctx.Shard, "metrics")
+	if ctx.Shard%4 == 1 || ctx.NShards < 4 {
+		c18ManySeries(ctx, r)
+	}
 	rounds := ctx.N(160, 24000)
 	for rd := 0; rd < rounds; rd++ {
 		c18SeqCollectorRound(ctx, r, rd)
